@@ -8283,16 +8283,8 @@ func (stmt *DropTableStmt) execAt(ctx context.Context, tx *SQLTx, params map[str
 	}
 
 	// delete checks
-	for name := range table.checkConstraints {
-		key := MapKey(
-			tx.sqlPrefix(),
-			catalogCheckPrefix,
-			EncodeID(DatabaseID),
-			EncodeID(table.id),
-			[]byte(name),
-		)
-
-		if err := tx.delete(ctx, key); err != nil {
+	for _, check := range table.checkConstraints {
+		if err := persistCheckDeletion(ctx, tx, table.id, check.id); err != nil {
 			return nil, err
 		}
 	}
